@@ -13,6 +13,9 @@ def run(ck, ctx):
         "stay as written. Isolation between statements is the per-statement flag reset (T-RESET, shared with C03).")
     ex = run_fragment(ck, ctx, "sequence", tier=ck.tier)
     S.t_reset_lexer(ck, ctx, only=ex.flags_touched)
+    S.t_dom(ck, ctx, "process_line", S.is_self_call("set_default_flags_in_lexer"), S.is_self_call("process_statement"),
+            "Parser.process_line: flag reset dominates process_statement()",
+            "the sequence-mode flag must be cleared before every statement, on every path, or options leak into neighbours")
     ck.floor("T-RESET.lexer", 2)
     ck.assumptions += ["words are separated as pre_process_data intends (L1 behaviour is declined, DESIGN 8)",
                        "int() on a decimal literal is exact (CPython)"]
